@@ -9,6 +9,7 @@ from ..astutil import Deps, is_name
 from ..cfg import CFG
 from ..engine import Analysis
 from ..kinds import arg_for, call_nodes, calls_to, forwards_varargs, normal_only, param_positions, q, strict, strict_but, token_assert, token_assert_for, vararg_names
+from ..loader import within as within_
 from ..loader import dotted, parent, stmt_text
 from . import c02
 
@@ -157,6 +158,46 @@ def check(an: Analysis) -> None:
     else:
         ob.fail(saexit, None, "disposables exit / task group exit not found")
 
+    # ------------------------------------------------------------------ C06.8 a failing / cancelled disposables exit aborts the children
+    ob = an.ob(
+        "C06.8",
+        "K5 exceptional paths",
+        "when Disposables.__aexit__ raises or is cancelled while the scope is being left, the task group exit reached on that path receives that exception (re-bound from the handler) - given the body's (possibly None) details the group would wait for blocked children instead of cancelling them and a cancelled task hangs",
+        ["context.access.ScopeContext.__aexit__"],
+    )
+    dx_aw = [n for n in gsa.nodes if n.kind == "await" and isinstance(n.ast.value, ast.Call) and an.callee(saexit, n.ast.value) == c02.D_EXIT]  # type: ignore[union-attr]
+    if dx_aw and gxn:
+        gpos = param_positions(prog.functions[c02.G_EXIT])
+        for gx_ in gxn:
+            a_val = arg_for(gx_.ast, 1, gpos[1])  # type: ignore[arg-type]
+            starts = [t for d0 in dx_aw for t in d0.out("exc")]
+            if not starts or gsa.search(starts, lambda n, gx_=gx_: n is gx_, include_start=True) is None:
+                continue  # this copy of the group exit is not reached after a failing disposables exit
+            ob.inst(saexit, gx_.ast, "group exit reached after a failing disposables exit")
+            if not isinstance(a_val, ast.Name):
+                ob.fail(saexit, gx_.ast, "the task group exit does not receive the exception raised by the disposables exit")
+                continue
+            handlers = [h for h in saexit.own_nodes() if isinstance(h, ast.ExceptHandler) and h.name]
+            if any(within_(gx_.ast, h) and h.name == a_val.id for h in handlers):
+                continue  # called inside the handler with the caught exception itself
+
+            def rebinding(n, name=a_val.id) -> bool:
+                if n.kind != "stmt" or not isinstance(n.ast, (ast.Assign, ast.AnnAssign)) or getattr(n.ast, "value", None) is None:
+                    return False
+                h = next((h for h in handlers if within_(n.ast, h)), None)
+                if h is None:
+                    return False
+                tgts = n.ast.targets if isinstance(n.ast, ast.Assign) else [n.ast.target]
+                flat = [x for t in tgts for x in (t.elts if isinstance(t, (ast.Tuple, ast.List)) else [t])]
+                vals = n.ast.value.elts if isinstance(n.ast.value, (ast.Tuple, ast.List)) and len(flat) == len(n.ast.value.elts) else [n.ast.value] * len(flat)
+                return any(is_name(t, name) and is_name(v, h.name) for t, v in zip(flat, vals))
+
+            w = gsa.search(starts, lambda n, gx_=gx_: n is gx_, skip_node=rebinding, include_start=True)
+            if w is not None:
+                ob.fail(saexit, gx_.ast, "after Disposables.__aexit__ raised (or was cancelled) the task group is exited with the body's exception details: for a body that ended normally the group waits for its tasks instead of cancelling them - a task cancelled while a disposable closes hangs on a blocked child", CFG.show_path([dx_aw[0]] + w))
+    elif not gxn:
+        ob.fail(saexit, None, "task group exit not found")
+
     # ------------------------------------------------------------------ C06.5 only __aenter__ binds the group
     ob = an.ob("C06.5", "K3", "TaskGroupContext._context.set occurs only in TaskGroupContext.__aenter__ and binds self._group (sync scopes / updates never rebind the group)")
     tq = prog.cls(TGC).qualname
@@ -208,3 +249,14 @@ def check(an: Analysis) -> None:
         w = gs.must_pass(lambda n: n in ent, exits=("exit-return",), skip_edge=normal_only)
         if w is not None:
             ob.fail(saenter, ent[0].ast, "a normal path through ScopeContext.__aenter__ does not enter the task group", CFG.show_path(w))
+
+
+    # ------------------------------------------------------------------ C06.9 the group variable is restored on every exit path (a later spawn lands in the enclosing group / detached)
+    _borrowed_c02(an)
+
+
+def _borrowed_c02(an: Analysis) -> None:
+    from ..engine import borrow
+    from . import c02
+
+    borrow(an, c02.check, {"C02.1": "C06.9"}, keep=lambda f: "TaskGroupContext" in f.at or "TaskGroupContext" in f.message)
